@@ -558,3 +558,18 @@ def _(p):
         if dc.shape != fd.shape or not numpy.allclose(dc, fd, rtol=1e-6, atol=1e-6):
             return f"derivative-mismatch: d/d{wrt} of {t!r} is reported as {d!r} whose columns are {dc[0].tolist()} (row 0), finite difference gives {fd[0].tolist()}"
     return None
+
+
+@replay("c18_hashseed")
+def _(p):
+    import os
+    import subprocess
+
+    outs = []
+    for sd in p["seeds"]:
+        r = subprocess.run(["/venv/bin/python", "-m", "harness.c18_hashseed"], cwd="/verif", env={**os.environ, "PYTHONHASHSEED": str(sd)}, capture_output=True, text=True, timeout=600)
+        outs.append(r.stdout.strip().splitlines())
+    for l0, l1 in zip(*outs):
+        if l0 != l1:
+            return f"hash-seed-dependence: {l0.split(' ', 2)[2]!r} differs between PYTHONHASHSEED={p['seeds'][0]} and {p['seeds'][1]}"
+    return None
